@@ -239,6 +239,52 @@ def col_obs(col):
     return '(OCol %s %s)' % (k, L.lst(cl)), {'kind': k, 'cells': [pyobs.jsonable(x) for x in col]}, prob
 
 
+def _show(v):
+    from datamatrix._datamatrix._basecolumn import BaseColumn
+    if isinstance(v, BaseColumn):
+        return 'column@%d' % id(v)
+    if isinstance(v, float):
+        return v.hex() if v == v else 'nan'
+    return '%s:%r' % (type(v).__name__, v)
+
+
+def arg_snapshot(x):
+    """what the caller can see of an argument object it handed over: for a dict / list / tuple the member OBJECTS
+    (identity) in their order, and their values; compared before / after every call"""
+    if isinstance(x, dict):
+        return ['dict'] + [[id(k), _show(k), id(v), _show(v)] for k, v in x.items()]
+    if isinstance(x, (list, tuple)):
+        return [type(x).__name__] + [[id(e), _show(e)] for e in x]
+    return [type(x).__name__, _show(x)]
+
+
+def arg_changed(op, what, before, x):
+    now = arg_snapshot(x)
+    if now != before:
+        return '%s modified the %s it was given: %r -> %r' % (
+            op, what, [e[1::2] if isinstance(e, list) else e for e in before], [e[1::2] if isinstance(e, list) else e for e in now])
+    return None
+
+
+def again(op, r, obs, r2, obs2):
+    """a SECOND call with the very same argument objects (the same mapping dict, column, list) must return the same
+    thing as the first, in a new object"""
+    if obs2 != obs:
+        return ('a second %s call with the same argument objects returned something else: first %s, then %s'
+                % (op, obs[:400], obs2[:400]))
+    if r is not None and r2 is r:
+        return 'two %s calls returned the same object' % op
+    c1, c2 = getattr(r, '_cols', None), getattr(r2, '_cols', None)
+    if isinstance(c1, dict) and isinstance(c2, dict) and (c1 is c2 or {id(c) for c in c1.values()} & {id(c) for c in c2.values()}):
+        return 'the results of two %s calls share column objects' % op
+    return None
+
+
+def both(mk, obs, obs2):
+    """the Coq verdict on the first call, and on the second one when it observed something else"""
+    return mk(obs) if obs2 == obs else '(%s && %s)' % (mk(obs), mk(obs2))
+
+
 def qlit(fr):
     fr = Fraction(fr)
     return '(Qmake %s %d)' % (L.z(fr.numerator), fr.denominator)
@@ -279,7 +325,14 @@ class C15:
             'moved, a merge | & ^ of two selections), then grown or shrunk and grown with dm.length (new cells written by '
             'position, some left at their defaults), concatenated (<<, also with a table lacking a column), rows deleted, '
             'slices taken, a column added late; the operation is judged against the cells of the resulting state as read '
-            'position by position (an exception while the history is built is a judged observation). non-trivial = the result differs from the source or an exception is raised; '
+            'position by position (an exception while the history is built is a judged observation). EVERY case calls its '
+            'operation TWICE with the very same argument objects (the same mapping dict, weight column, design table, column, '
+            'list / tuple of names and columns, list of levels): both calls must observe the same thing (the second observation '
+            'is judged by the oracle and the model too when it differs), in separate result objects, and after each call the '
+            'argument objects must be unchanged (dict: the same key / value objects in the same order; lists: the same members; '
+            'columns still owned by their table); replace then uses the same mapping object on ANOTHER column of the same type '
+            'when the table has one (judged in Coq like the first); replace on series columns with a NaN key and NaN samples. '
+            'non-trivial = the result differs from the source or an exception is raised; '
             'distinct by (operation, source table, parameters)')
     trusted_base = [
         'Coq 8.16.1 kernel (coqc; vm_compute for evaluating cases; no native_compute)',
@@ -377,12 +430,16 @@ class C15:
             return bad
         src_lit, src_py, prob = dump(dm)
         w = inp['wname']
-        r, obs, observed, p2 = self._outcome_tbl(lambda: ops.weight(dm[w]))
-        pyfail = prob or p2
+        wcol = dm[w]
+        r, obs, observed, p2 = self._outcome_tbl(lambda: ops.weight(wcol))
+        r2, obs2, _ob2, p3 = self._outcome_tbl(lambda: ops.weight(wcol))          # the same weight column once more
+        pyfail = prob or p2 or p3 or again('weight', r, obs, r2, obs2)
         if r is not None and r is dm:
             pyfail = pyfail or 'weight returned its source'
-        oracle = '(weight_oracle %s %s %s)' % (src_lit, L.string(w), obs)
-        model = '(weight_agrees %s %s %s)' % (src_lit, L.string(w), obs)
+        if dm._cols.get(w) is not wcol or wcol._datamatrix is not dm:
+            pyfail = pyfail or 'the weight column no longer belongs to its table after weight'
+        oracle = both(lambda o: '(weight_oracle %s %s %s)' % (src_lit, L.string(w), o), obs, obs2)
+        model = both(lambda o: '(weight_agrees %s %s %s)' % (src_lit, L.string(w), o), obs, obs2)
         nontriv = not (isinstance(observed, dict) and observed.get('cols') == src_py['cols'])
         tags = ['weight:' + ('error' if 'raises' in observed else 'ok'), 'wkind:' + str(kind_of(dm[w]))]
         return self._finish(inp, 'weight', src_lit, src_py, dm, observed, pyfail, oracle, model, nontriv, tags)
@@ -424,11 +481,20 @@ class C15:
         src_w = list(dm.w)
         valid = all(type(w) is int and w >= 0 for w in src_w)
         pyfail = None
+        wcol = dm.w
         try:
             with warnings.catch_warnings():
                 warnings.simplefilter('ignore')
-                r = ops.weight(dm.w)
+                second = ('ok', snapshot(ops.weight(wcol)))
+        except Exception as e:          # noqa: BLE001
+            second = ('raises', pyobs.exn_name(e))
+        try:
+            with warnings.catch_warnings():
+                warnings.simplefilter('ignore')
+                r = ops.weight(wcol)
             observed = snapshot(r)
+            if second != ('ok', observed):
+                pyfail = 'two weight calls on the same column: %r, then %r' % (second, observed)
             if not valid:
                 pyfail = 'weight accepted the weights %r (TypeError expected)' % (src_w,)
             else:
@@ -443,6 +509,8 @@ class C15:
                     pyfail = 'weight with series columns: expected %r, found %r' % (expected, observed)
         except Exception as e:          # noqa: BLE001
             observed = {'raises': pyobs.exn_name(e), 'msg': str(e)[:200]}
+            if second != ('raises', pyobs.exn_name(e)):
+                pyfail = 'two weight calls on the same column: %r, then %r' % (second, observed)
             if valid or pyobs.exn_name(e) != 'TypeError':
                 pyfail = ('weight raised %s for the weights %r in a DataMatrix holding series columns%s'
                           % (pyobs.exn_name(e), src_w, '' if valid else ' (TypeError expected)'))
@@ -464,29 +532,44 @@ class C15:
         dm.s = SeriesColumn(depth=d0)
         for i in range(n):
             dm.s[i] = [float((i + j) % 4) for j in range(d0)]
+        for i, j in inp.get('nan_cells', []):          # samples that hold NaN (a NaN key designates exactly them)
+            if i < n and j < d0:
+                dm.s[i, j] = NAN
         for d in inp.get('depths', []):
             dm.s.depth = d
         if inp.get('slice'):
             dm = dm[:]
-        mapping = {float(k): float(v) for k, v in inp['mapping']}
+        mapping = {float(k): float(v) for k, v in inp['mapping']}          # the key 'nan' is float('nan')
+        m_before = arg_snapshot(mapping)
         before = np.array(dm.s._seq, copy=True)
         want = before.copy()
         for k, v in mapping.items():          # keys and values are disjoint: the order of the passes does not matter
-            want[before == k] = v
+            want[np.isnan(before) if k != k else before == k] = v
         pyfail = None
-        try:
-            with warnings.catch_warnings():
-                warnings.simplefilter('ignore')
-                r = ops.replace(dm.s, mapping)
-            got = np.array(r._seq)
-            observed = {'result': got.tolist()}
-            if r is dm.s:
-                pyfail = 'replace returned its input column'
-            elif got.shape != want.shape or not np.array_equal(got, want, equal_nan=True):
-                pyfail = 'replace on a series column: expected %r, found %r' % (want.tolist(), got.tolist())
-        except Exception as e:          # noqa: BLE001
-            observed = {'raises': pyobs.exn_name(e), 'msg': str(e)[:200]}
-            pyfail = 'replace on a series column raised %s: %s' % (pyobs.exn_name(e), e)
+        scol = dm.s
+        for call in ('first', 'second'):          # the same column and the SAME mapping object twice
+            try:
+                with warnings.catch_warnings():
+                    warnings.simplefilter('ignore')
+                    r = ops.replace(scol, mapping)
+                got = np.array(r._seq)
+                if call == 'first':
+                    observed = {'result': got.tolist()}
+                    first = r
+                elif r is first or r._seq is first._seq:
+                    pyfail = pyfail or 'two replace calls returned the same object / storage'
+                if r is scol:
+                    pyfail = pyfail or 'replace returned its input column'
+                elif got.shape != want.shape or not np.array_equal(got, want, equal_nan=True):
+                    pyfail = pyfail or 'replace on a series column (%s call with this mapping object): expected %r, found %r' % (
+                        call, want.tolist(), got.tolist())
+            except Exception as e:          # noqa: BLE001
+                if call == 'first':
+                    observed = {'raises': pyobs.exn_name(e), 'msg': str(e)[:200]}
+                pyfail = pyfail or 'replace on a series column raised %s: %s' % (pyobs.exn_name(e), e)
+            pyfail = pyfail or arg_changed('replace', 'mapping', m_before, mapping)
+            if pyfail:
+                break
         if not np.array_equal(np.array(dm.s._seq), before, equal_nan=True):
             pyfail = pyfail or 'replace modified its input: %r -> %r' % (before.tolist(), np.array(dm.s._seq).tolist())
         if pyfail is None and 'result' in observed:
@@ -495,7 +578,8 @@ class C15:
                 pyfail = 'writing to the result of replace changed the input column'
         return {'input': inp, 'observed': observed, 'pyfail': pyfail, 'oracle': 'false' if pyfail else 'true', 'model': 'true',
                 'nontrivial': bool((want != before).any()), 'sig': 'replace_series|%s' % _compact(inp),
-                'tags': ['replace', 'replace:series', 'depths:%d' % len(inp.get('depths', []))]}
+                'tags': ['replace', 'replace:series', 'depths:%d' % len(inp.get('depths', []))]
+                + (['replace:series-nan-key'] if any(k == 'nan' for k, _v in inp['mapping']) else [])}
 
     def gen_replace_series(self, rng, tier):
         cases = []
@@ -510,23 +594,34 @@ class C15:
             elif c < 0.7 and d0 > 1:
                 depths = [d0 + 1, rng.randint(1, d0)]
             keys = rng.sample([0.0, 1.0, 2.0, 3.0, 7.0], rng.randint(0, 2))
-            cases.append(self.rerun({'op': 'replace_series', 'rows': rng.randint(1, 4), 'depth0': d0, 'depths': depths,
-                                     'slice': rng.random() < 0.3, 'mapping': [[k, 10.0 + k] for k in keys]}))
+            rows = rng.randint(1, 4)
+            inp = {'op': 'replace_series', 'rows': rows, 'depth0': d0, 'depths': depths,
+                   'slice': rng.random() < 0.3, 'mapping': [[k, 10.0 + k] for k in keys]}
+            if rng.random() < 0.5:
+                # a NaN key (written 'nan': float('nan')) among the others, and samples that hold NaN
+                inp['mapping'].insert(rng.randint(0, len(keys)), ['nan', 99.0])
+                inp['nan_cells'] = [[rng.randrange(rows), rng.randrange(d0)] for _ in range(rng.randint(0, 3))]
+            cases.append(self.rerun(inp))
         return cases
 
     def _run_fullfact(self, inp):
         from datamatrix import operations as ops
         levels = inp['levels']
         try:
+            lv = list(levels)
+            lv_before = arg_snapshot(lv)
             with warnings.catch_warnings():
                 warnings.simplefilter('ignore')
-                h = ops._fullfact(list(levels))
+                h = ops._fullfact(lv)
+                h2 = ops._fullfact(lv)          # the same list object once more
             rows = [[int(x) for x in row] for row in h]
-            pyfail = None
+            pyfail = arg_changed('_fullfact', 'list of levels', lv_before, lv)
+            if h2 is h or h2.shape != h.shape or not (h2 == h).all():
+                pyfail = pyfail or 'two _fullfact calls with the same list: %r, then %r' % (h.tolist(), h2.tolist())
             if any(float(x) != int(x) for row in h for x in row):
-                pyfail = '_fullfact produced non-integral entries'
+                pyfail = pyfail or '_fullfact produced non-integral entries'
             if h.shape != (len(rows), len(levels)):
-                pyfail = '_fullfact shape %r' % (h.shape,)
+                pyfail = pyfail or '_fullfact shape %r' % (h.shape,)
             hl = L.lst(L.zs(r) for r in rows)
             oracle = '(fullfact_oracle %s %s)' % (L.zs(levels), hl)
             model = '(fullfact_agrees %s %s)' % (L.zs(levels), hl)
@@ -547,15 +642,17 @@ class C15:
         src_lit, src_py, prob = dump(dm)
         ig = pyobs.dec(inp['ignore'])
         if inp.get('default_ignore'):
-            r, obs, observed, p2 = self._outcome_tbl(lambda: ops.fullfactorial(dm))
+            thunk = lambda: ops.fullfactorial(dm)          # noqa: E731
         else:
-            r, obs, observed, p2 = self._outcome_tbl(lambda: ops.fullfactorial(dm, ignore=ig))
-        pyfail = prob or p2
+            thunk = lambda: ops.fullfactorial(dm, ignore=ig)          # noqa: E731
+        r, obs, observed, p2 = self._outcome_tbl(thunk)
+        r2, obs2, _ob2, p3 = self._outcome_tbl(thunk)          # the same design table once more
+        pyfail = prob or p2 or p3 or again('fullfactorial', r, obs, r2, obs2)
         if r is not None and r is dm:
             pyfail = pyfail or 'fullfactorial returned its source'
         igl = pyobs.val(ig)
-        oracle = '(ff_oracle %s %s %s)' % (igl, src_lit, obs)
-        model = '(ff_agrees %s %s %s)' % (igl, src_lit, obs)
+        oracle = both(lambda o: '(ff_oracle %s %s %s)' % (igl, src_lit, o), obs, obs2)
+        model = both(lambda o: '(ff_agrees %s %s %s)' % (igl, src_lit, o), obs, obs2)
         nontriv = not (isinstance(observed, dict) and observed.get('cols') == src_py['cols'])
         ncol = len(inp['tab']['cols'])
         tags = ['ff:%dx%d' % (ncol, len(dm)), 'ff:' + ('error' if 'raises' in observed else 'ok'), 'ignore:' + inp['ignore']['t']]
@@ -581,27 +678,48 @@ class C15:
         name = inp['col']
         col = dm[name]
         m, pairs = self._mapping(inp)
+        m_before = arg_snapshot(m)
         kd = kind_of(col)
         pyfail = prob
-        try:
-            with warnings.catch_warnings():
-                warnings.simplefilter('ignore')
-                r = ops.replace(col, m)
-            obs, observed, p2 = col_obs(r)
-            pyfail = pyfail or p2
-            if r is col or r._seq is col._seq:
-                pyfail = pyfail or 'replace returned (storage of) its source column'
-            if len(r) != len(col):
-                pyfail = pyfail or 'replace changed the length'
-        except Exception as e:          # noqa: BLE001
-            obs = '(OExn %s)' % pyobs.exn_name(e)
-            observed = {'raises': pyobs.exn_name(e), 'msg': str(e)[:200]}
+
+        def call(c):
+            """ops.replace(c, m) with the ONE mapping object of this case -> (result, Coq observation, observed, problem)"""
+            try:
+                with warnings.catch_warnings():
+                    warnings.simplefilter('ignore')
+                    res = ops.replace(c, m)
+                o, ob, pr = col_obs(res)
+                if res is c or res._seq is c._seq:
+                    pr = pr or 'replace returned (storage of) its source column'
+                if len(res) != len(c):
+                    pr = pr or 'replace changed the length'
+            except Exception as e:          # noqa: BLE001
+                res, o, pr = None, '(OExn %s)' % pyobs.exn_name(e), None
+                ob = {'raises': pyobs.exn_name(e), 'msg': str(e)[:200]}
+            return res, o, ob, pr or arg_changed('replace', 'mapping', m_before, m)
+        r, obs, observed, p2 = call(col)
+        r2, obs2, _ob2, p3 = call(col)          # the same column and the same mapping object once more
+        pyfail = pyfail or p2 or p3 or again('replace', r, obs, r2, obs2)
+        if r is not None and r2 is not None and r2._seq is r._seq:
+            pyfail = pyfail or 'the results of two replace calls share their storage'
         ml = L.lst('(%s, %s)' % (pyobs.pyv(k), pyobs.pyv(v)) for k, v in pairs)
         cl = L.lst(pyobs.val(x) or 'VNone' for x in col)
-        oracle = '(replace_oracle %s %s %s %s)' % (kd, ml, cl, obs)
-        model = '(replace_agrees %s %s %s %s)' % (kd, ml, cl, obs)
+        oracle = both(lambda o: '(replace_oracle %s %s %s %s)' % (kd, ml, cl, o), obs, obs2)
+        model = both(lambda o: '(replace_agrees %s %s %s %s)' % (kd, ml, cl, o), obs, obs2)
+        # the mapping object used for ANOTHER column of the same type afterwards (recoding several columns alike)
+        sib = [nm for nm, c in dm.columns if c is not col and kind_of(c) == kd]
+        sib_tag = []
+        if sib and not (kd == 'KMixed' and any(isinstance(k, float) and k != k for k, _v in pairs)):
+            col3 = dm[sib[0]]
+            _r3, obs3, ob3, p4 = call(col3)
+            pyfail = pyfail or p4
+            cl3 = L.lst(pyobs.val(x) or 'VNone' for x in col3)
+            oracle = '(%s && replace_oracle %s %s %s %s)' % (oracle, kd, ml, cl3, obs3)
+            model = '(%s && replace_agrees %s %s %s %s)' % (model, kd, ml, cl3, obs3)
+            observed = dict(observed, then_on=sib[0], then=ob3)
+            sib_tag = ['replace:mapping-reused-on-a-sibling']
         nontriv = observed.get('cells') != [pyobs.jsonable(x) for x in col]
-        tags = ['replace:' + kd, 'replace:' + ('error' if 'raises' in observed else 'ok')] + inp.get('tags', [])
+        tags = ['replace:' + kd, 'replace:' + ('error' if 'raises' in observed else 'ok')] + inp.get('tags', []) + sib_tag
         # pending findings (see INCLUDE_PENDING_FINDINGS): judged by the strict reading only when switched on
         isnan = lambda x: isinstance(x, float) and x != x          # noqa: E731
         nan_keys = [v for k, v in pairs if isnan(k)]
@@ -690,27 +808,39 @@ class C15:
                 oargs.append('OOther')
         own_only = all(('name' in a or 'obj' in a) for a in inp['args'])
         via = inp['via']
+        largs, targs = list(args), tuple(args)          # ONE argument list / tuple object for both calls
+        a_before = arg_snapshot(largs)
         if via == 'keep_only':
             thunk = lambda: ops.keep_only(dm, *args)
         elif via == 'keep_only_list':
-            thunk = lambda: ops.keep_only(dm, list(args))
+            thunk = lambda: ops.keep_only(dm, largs)
         elif via == 'getitem_tuple':
-            thunk = lambda: dm[tuple(args)]
+            thunk = lambda: dm[targs]
         else:
-            thunk = lambda: dm[list(args)]
+            thunk = lambda: dm[largs]
         r, obs, observed, p2 = self._outcome_tbl(thunk)
-        pyfail = prob or p2
+        pyfail = prob or p2 or arg_changed('keep_only', 'argument list', a_before, largs)
+        r2, obs2, _ob2, p3 = self._outcome_tbl(thunk)          # the same arguments once more
+        pyfail = pyfail or p3 or again('keep_only', r, obs, r2, obs2) or arg_changed('keep_only', 'argument list', a_before, largs)
+        for a, obj in zip(inp['args'], args):
+            if 'obj' in a and (not any(cc is obj for _n, cc in dm.columns) or obj._datamatrix is not dm):
+                pyfail = pyfail or 'a column passed to keep_only no longer belongs to its table'
         if r is not None and r is dm:
             pyfail = pyfail or 'keep_only returned its source'
         if r is not None and not p2 and hasattr(r, '_rowid') and [int(i) for i in r._rowid] != src_py['rowid']:
             pyfail = pyfail or 'keep_only changed the rows: %r -> %r' % (src_py['rowid'], [int(i) for i in r._rowid])
-        oracle = '(keep_oracle %s %s %s)' % (src_lit, L.lst(L.string(n) for n in names), obs) if resolvable else 'true'
-        if resolvable and own_only:
-            # by identity: exactly the columns named or passed as objects, whatever the objects are called now
-            oracle = '(%s && keep_id_oracle %s %s %s %s)' % (oracle, src_lit, ids_lit, L.lst(oargs), obs)
-        model = '(keep_agrees %s %s %s %s && keep_obj_agrees %s %s %s %s)' % (
-            src_lit, L.boolean(via == 'keep_only_list'), L.lst(margs), obs,
-            src_lit, L.boolean(via == 'keep_only_list'), L.lst(oargs), obs)
+        def mk_oracle(o):
+            t = '(keep_oracle %s %s %s)' % (src_lit, L.lst(L.string(n) for n in names), o) if resolvable else 'true'
+            if resolvable and own_only:
+                # by identity: exactly the columns named or passed as objects, whatever the objects are called now
+                t = '(%s && keep_id_oracle %s %s %s %s)' % (t, src_lit, ids_lit, L.lst(oargs), o)
+            return t
+
+        def mk_model(o):
+            return '(keep_agrees %s %s %s %s && keep_obj_agrees %s %s %s %s)' % (
+                src_lit, L.boolean(via == 'keep_only_list'), L.lst(margs), o,
+                src_lit, L.boolean(via == 'keep_only_list'), L.lst(oargs), o)
+        oracle, model = both(mk_oracle, obs, obs2), both(mk_model, obs, obs2)
         if via.startswith('getitem') and not resolvable and any('other' in a for a in inp['args']):
             model = 'true'          # dm[(7, ...)] is row selection, not column selection
         nontriv = not (isinstance(observed, dict) and observed.get('cols') == src_py['cols'])
@@ -743,10 +873,13 @@ class C15:
             with warnings.catch_warnings():
                 warnings.simplefilter('ignore')
                 r = ops.z(col)
+                r2 = ops.z(col)          # the same column once more
             obs, observed, p2 = col_obs(r)
-            pyfail = pyfail or p2
+            pyfail = pyfail or p2 or again('z', r, obs, r2, col_obs(r2)[0])
             if r is col:
                 pyfail = pyfail or 'z returned its source column'
+            if not any(cc is col for _n, cc in dm.columns) or col._datamatrix is not dm:
+                pyfail = pyfail or 'the column passed to z no longer belongs to its table'
             out = list(r)
             fin = [float(x) for x in out if isinstance(x, (int, float)) and math.isfinite(x)]
             nsrc = [x for x in src_cells if isinstance(x, (int, float)) and math.isfinite(x)]
